@@ -68,7 +68,7 @@ Print Assumptions C10_recv_fault_marks_cutoff.
 Theorem C10_isolation : forall c p sv,
   (forall ca, no_raise_send c (send_of (p_io p) ca) = true) ->
   snd (service c p sv) = Ok tt /\
-  ixes (fst (service c p sv)) = flat_map (alone c (p_io p)) (present p sv).
+  ixes (fst (service c p sv)) = flat_map (alone c (p_io p)) (present c p sv).
 Proof. exact isolation. Qed.
 Print Assumptions C10_isolation.
 
@@ -81,9 +81,34 @@ Theorem C10_server_no_escape : forall c p sv,
   (forall ca, no_raise_send c (send_of (p_io p) ca) = true) ->
   (forall ca, forallb (no_raise_recv c) (recvs_of (p_io p) ca) = true) ->
   snd (service c p sv) = Ok tt /\
-  ixes (fst (service c p sv)) = map (served c (p_io p)) (present p sv).
+  ixes (fst (service c p sv)) = map (served c (p_io p)) (present c p sv).
 Proof. exact server_no_escape. Qed.
 Print Assumptions C10_server_no_escape.
+
+(* A connection accepted from an address that is still in .ixes (alive, cut off or closed): the old
+   connection's socket is closed, the new connection takes its place (fresh state, same position), every
+   other connection is untouched. *)
+Theorem C10_replacement : forall ca l,
+  mem_ix ca l = true ->
+  accept_ix [(ca, false)] l = (put_ix ca l, [ca]) /\
+  lookup ca (put_ix ca l) = Some (init true) /\
+  map fst (put_ix ca l) = map fst l /\
+  (forall k, N.eqb k ca = false -> lookup k (put_ix ca l) = lookup k l).
+Proof. exact replacement. Qed.
+Print Assumptions C10_replacement.
+
+Example C10_replacement_example :
+  let c := server_cfg false in
+  let old := cut (set_txbs (init true) [7;7]%N) in
+  let sv := {| ixes := [(1%N, init true); (2%N, old)]; cxes := []; closed := [] |} in
+  let p := {| p_tx := [(1%N, [5]%N)]; p_acc := [(2%N, false); (3%N, true)]; p_hs := [];
+              p_io := [(1%N, {| sc_recvs := []; sc_send := SAccept 1 |});
+                       (2%N, {| sc_recvs := [RData [9]%N]; sc_send := SAccept 1 |})] |} in
+  mem_ix 2 (ixes sv) = true /\ snd (service c p sv) = Ok tt /\
+  map (fun x => (fst x, cutoff (snd x), txbs (snd x), rxbs (snd x))) (ixes (fst (service c p sv)))
+    = [(1, false, [], []); (2, false, [], [9])]%N /\
+  closed (fst (service c p sv)) = [2; 3]%N.
+Proof. vm_compute. repeat split. Qed.
 
 (* Pending TLS handshakes on the server: never raise, each decided by its own answer. *)
 Theorem C10_server_handshakes : forall hs l,
@@ -100,13 +125,13 @@ Print Assumptions C10_server_handshakes.
 Theorem C10_isolation_refuted :
   let c := server_cfg false in
   let sv := {| ixes := [(1%N, init true); (2%N, init true)]; cxes := []; closed := [] |} in
-  let p := {| p_tx := [(1%N, [7;7]%N); (2%N, [8;8]%N)]; p_hs := [];
+  let p := {| p_tx := [(1%N, [7;7]%N); (2%N, [8;8]%N)]; p_acc := []; p_hs := [];
               p_io := [(1%N, {| sc_recvs := []; sc_send := SFail EPIPE |});
                        (2%N, {| sc_recvs := []; sc_send := SAccept 2 |})] |} in
   In (FOs, EPIPE) (faults_at (SSend KRemoter)) /\
   snd (service c p sv) = Exc OSErr /\
   map (fun x => txbs (snd x)) (ixes (fst (service c p sv))) = [[7;7]%N; [8;8]%N] /\
-  map (fun x => txbs (snd x)) (flat_map (alone c (p_io p)) (present p sv)) = [[7;7]%N; []].
+  map (fun x => txbs (snd x)) (flat_map (alone c (p_io p)) (present c p sv)) = [[7;7]%N; []].
 Proof. vm_compute. intuition. Qed.
 Print Assumptions C10_isolation_refuted.
 
@@ -122,7 +147,7 @@ Example C10_isolation_example :
   let c := server_cfg true in
   let sv := {| ixes := [(1%N, init true); (2%N, init true)]; cxes := [3%N; 4%N]; closed := [] |} in
   let p := {| p_tx := [(1%N, [7;7]%N); (2%N, [8;8]%N)];
-              p_hs := [(3%N, HFail FOs ECONNRESET); (4%N, HDone)];
+              p_acc := []; p_hs := [(3%N, HFail FOs ECONNRESET); (4%N, HDone)];
               p_io := [(1%N, {| sc_recvs := [RData [5]%N; RFail ECONNRESET]; sc_send := SAccept 1 |});
                        (2%N, {| sc_recvs := [RData [6]%N]; sc_send := SAccept 1 |});
                        (4%N, {| sc_recvs := [RData [9]%N]; sc_send := SFail SSL_EOF |})] |} in
